@@ -4287,6 +4287,10 @@ def _is_order_dependent(expr):
     from dask_expr._reductions import IsMonotonicIncreasing
     from dask_expr._rolling import RollingReduction
 
+    if isinstance(expr, MapPartitions) and not isinstance(expr, UFuncElemwise):
+        # a user function sees whole partitions (s > s.mean(), len(s), ...): its
+        # result changes with the rows that share a partition
+        return True
     return isinstance(
         expr,
         (
